@@ -46,6 +46,9 @@ func c11(env *core.Env) {
 		}
 		rh := h.realmHost
 		h.realmURL = []string{"http://" + rh + "/token", "http://" + rh + "/token?a=b,c", "http://" + rh + `/to"ken\path`, "http://" + rh + "/v2/token/", "http://" + rh + `/token?tenant=corp\alice`, "http://" + rh + `/token?q=a\\b"c`}[c.Int("realmurl", 6)]
+		if c.Bool("realm.https", 1, 3) {
+			h.realmURL = "https" + strings.TrimPrefix(h.realmURL, "http")
+		}
 		switch c.Int("creds", 5) {
 		case 0:
 		case 1:
@@ -71,7 +74,16 @@ func c11(env *core.Env) {
 			h.failure = []string{"redirect-301", "redirect-302", "redirect-303", "redirect-307", "redirect-308"}[c.Int("redirect.status", 5)]
 			// to a host nobody named, to the same host name on another port, to a
 			// subdomain of the realm, or to the other registry's realm host
-			h.redirectTo = []string{"http://other.example/token", "http://" + h.realmHost + ":8443/token", "http://sso." + h.realmHost + "/token", "other-realm"}[c.Int("redirect.to", 4)]
+			h.redirectTo = []string{"http://other.example/token", "http://" + h.realmHost + ":8443/token", "http://sso." + h.realmHost + "/token", "other-realm", "other-scheme"}[c.Int("redirect.to", 5)]
+			if h.redirectTo == "other-scheme" {
+				// the same host name under the other scheme: another port, and from https
+				// to http one on which everything travels in the clear
+				flipped := "https"
+				if strings.HasPrefix(h.realmURL, "https:") {
+					flipped = "http"
+				}
+				h.redirectTo = flipped + "://" + h.realmHost + "/token"
+			}
 		}
 		return h
 	}
@@ -243,6 +255,16 @@ func checkConfinement(env *core.Env, w *authWorld, hosts []*regHost, o *outReq) 
 			for named := range w.namedRealmURLs[owner.name] {
 				if realmMatches(named, o.url) {
 					ok = true
+				}
+			}
+			// (where the realm itself sends the client on, within its own origin, is the
+			// realm's business: the request after a redirect answer goes where that said)
+			if !ok && o.seq > 0 {
+				for i := o.seq - 1; i >= 0; i-- {
+					if p := w.out[i]; p.callID == o.callID {
+						ok = p.kind == "realm" && p.status/100 == 3
+						break
+					}
 				}
 			}
 			if !ok && (o.basicP != "" || strings.Contains(o.body, "refresh_token=")) {
